@@ -43,7 +43,7 @@ func runC18(c *Ctx) {
 	c.Rule("R18.1b", "the Terminating reason 'Completed' is only produced after doFinalising reported done", 1)
 	c.Rule("R18.2", "for each own finalizer a removal site is reachable from the controller's Reconcile on a feasible path", 3)
 	c.Rule("R18.3", "the per-rollout progressing finalizer on TrafficRouting is removed only beneath doFinalising", 1)
-	c.Rule("R18.4", "no error inside the teardown closure is lost: 'done' cannot be reported while a cleanup write failed", 120)
+	c.Rule("R18.4", "no error inside the teardown closure is lost: 'done' cannot be reported while a cleanup write failed", 80)
 	{
 		var roots []*ssa.Function
 		for _, n := range []string{
